@@ -164,7 +164,9 @@ class Engine:
         self.si = srcinfo
         self.loop_bound = loop_bound
         self.call_depth = call_depth
-        self.solver = z3.Solver()
+        # solve-eqs first: path conditions are full of definitional equalities (lengths, offsets); eliminating them
+        # before bit-blasting turned 20 s timeouts into milliseconds on the stream-reassembly obligations
+        self.solver = z3.Then('simplify', 'solve-eqs', 'smt').solver()
         self.solver.set('timeout', query_timeout_ms)
         self.findings = []
         self.stats = dict(queries=0, sat=0, unsat=0, unknown=0, solver_s=0.0, forks=0, paths=0,
@@ -179,6 +181,7 @@ class Engine:
         self.max_paths = 4000
         self.on_drop = None
         self._divmod = {}
+        self._const_cache = {}
 
     # ------------------------------------------------------------------ solver
     def check(self, pc, extra=()):
@@ -820,11 +823,26 @@ class Engine:
             if m.group(2) == 'MAX':
                 return Int(BV((1 << (b - 1)) - 1 if sg else (1 << b) - 1, b), b, sg)
             return Int(BV((1 << (b - 1)) if sg else 0, b), b, sg)
+        m = re.match(r'^tracing::Level::(TRACE|DEBUG|INFO|WARN|ERROR)$', t)
+        if m:
+            vs = self.si.enums['LevelInner']
+            return Agg('tracing::Level', {0: Agg('LevelInner', {}, ['TRACE', 'DEBUG', 'INFO', 'WARN', 'ERROR'].index(m.group(1)), {}, vs)})
         body = self.db.const_body(t, st.frames[-1].fn if st.frames else None) if hasattr(self.db, 'const_body') else None
         if body is not None and len(st.frames) < self.call_depth + 4:
-            key = ('const', body.name)
+            key = body.name
+            if key in self._const_cache:
+                kind, val = self._const_cache[key]
+                if kind == 'val':
+                    return val
+                return Ref(st.alloc(val), ())
             r = self.call_sub(st, body, [])
             if r is not None:
+                if isinstance(r, (Int, Bool, Bytes, Unit, Opaque)) or (isinstance(r, Agg) and not _has_ref(r)):
+                    self._const_cache[key] = ('val', r)
+                elif isinstance(r, Ref) and not r.path:
+                    pointee = st.mem.get(r.cell)
+                    if isinstance(pointee, (Int, Bool, Bytes, Opaque)) or (isinstance(pointee, (Agg, SeqV)) and not _has_ref(pointee)):
+                        self._const_cache[key] = ('ref', pointee)
                 return r
         # enum-like constants printed bare (e.g. `InvalidInput`) and everything else
         ls = last_seg(t)
@@ -1384,6 +1402,26 @@ class Engine:
 
 PUSHED = object()
 DIVERGE = object()
+
+
+def _has_ref(v, depth=0):
+    if depth > 6:
+        return True
+    if isinstance(v, Ref):
+        return True
+    if isinstance(v, Agg):
+        for x in v.fields.values():
+            if _has_ref(x, depth + 1):
+                return True
+        for d in v.variants.values():
+            for x in d.values():
+                if _has_ref(x, depth + 1):
+                    return True
+    if isinstance(v, SeqV) and v.items is not None:
+        return any(_has_ref(x, depth + 1) for x in v.items)
+    if isinstance(v, (Opaque, Future, Stream, MapV)):
+        return isinstance(v, (Future, Stream, MapV))
+    return False
 
 
 class Push:
